@@ -213,15 +213,16 @@ def ConvKind.fn (S : Sym α) : ConvKind → α → α → α
   | .rocFromApct => Gen.Temporal.rocFromApct S.log S.exp S.pw
   | .rocFromAroc => Gen.Temporal.rocFromAroc S.log S.exp S.pw
 
-/-- fractional powers need a positive base (the gross rate): `1 + data/100` resp. `data` -/
-def ConvKind.dom (S : Sym α) : ConvKind → α → Bool
+/-- fractional powers need a positive base (the gross rate `1 + data/100` resp. `data`); with the annualisation factor 1
+(yearly and integer periods) the exponent is `1/1 = 1.0` and numpy's power is defined for every base -/
+def ConvKind.dom (S : Sym α) (f : Freq) : ConvKind → α → Bool
   | .rocFromPct | .pctFromRoc => fun _ => true
-  | .pctFromApct | .rocFromApct => fun d => S.isPos ((1 : Nat) + d / ((100 : Nat) : α))
-  | .rocFromAroc => fun d => S.isPos d
+  | .pctFromApct | .rocFromApct => fun d => decide (annualFactor f.value = 1) || S.isPos ((1 : Nat) + d / ((100 : Nat) : α))
+  | .rocFromAroc => fun d => decide (annualFactor f.value = 1) || S.isPos d
 
 /-- `self.data = <formula>(self.data)` -/
 def convert (S : Sym α) (c : ConvKind) (s : Ser α) : Ser α :=
-  s.mapCells (lift1 (c.dom S) (c.fn S (factorOf s.freq)))
+  s.mapCells (lift1 (c.dom S s.freq) (c.fn S (factorOf s.freq)))
 
 /-! ### Temporal cumulation -/
 
